@@ -12,6 +12,9 @@ TRUSTED_BASE = [
 CRATES = {
     "sync": {},
     "algo": {},
+    "core": {},
+    "producer": {},
+    "relayer": {},
 }
 
 
@@ -106,5 +109,49 @@ PROPS["C27"] = {
         H("c27_step_blocks2_header", [_HC + "handle_current_chunk"], "current Blocks(2), cached header", cuts=_STEP_CUTS),
         H("c27_step_blocks1_block", [_HC + "handle_current_chunk"], "current Blocks(1), cached block", cuts=_STEP_CUTS),
         H("c27_step_blocks2_block", [_HC + "handle_current_chunk"], "current Blocks(2), cached block", cuts=_STEP_CUTS),
+    ],
+}
+
+_SEL = "fuel_core_producer::block_producer::Producer::select_new_da_height"
+_C30_CUTS = ["std::backtrace::Backtrace::capture -> Backtrace::disabled() (anyhow errors carry no backtrace)",
+             "alloc::fmt::format -> empty string (error messages)"]
+PROPS["C30"] = {
+    "crate": "producer",
+    "level": "model_checking",
+    "explanation": "The real private async fn select_new_da_height is polled to completion against a relayer whose finalized "
+                   "height, per-block costs, transaction counts and failures are all symbolic, and compared with the largest "
+                   "fitting prefix computed from the statement.",
+    "bounds": "finalized - previous <= N DA blocks (N = 2, 4 quick; 6 thorough; unwinding assertions on), all u64 costs, counts, "
+              "gas limits and heights, all u16 transaction limits, relayer failures at any point",
+    "outside": "the relayer adapter and storage behind the Relayer port; the rest of block production (executor)",
+    "assumptions": ["the relayer answers for heights in (previous, finalized]; a query outside that interval is itself reported as a violation",
+                    "every future awaited by the function is immediately ready (the mock relayer never suspends)"],
+    "harnesses": [
+        H("c30_select_n2", [_SEL], "<= 2 DA blocks ahead, all u64/u16 values", cuts=_C30_CUTS, timeout={"quick": 1500, "thorough": 3600}),
+        H("c30_select_n4", [_SEL], "<= 4 DA blocks ahead, all u64/u16 values", cuts=_C30_CUTS, timeout={"quick": 1800, "thorough": 3600}),
+        H("c30_select_n6", [_SEL], "<= 6 DA blocks ahead, all u64/u16 values", cuts=_C30_CUTS, tiers=("thorough",), timeout={"thorough": 7200}),
+    ],
+}
+
+_PG = "fuel_core_relayer::service::state::"
+PROPS["C29"] = {
+    "crate": "relayer",
+    "level": "model_checking",
+    "explanation": "The pager and the adaptive page sizer that decide which DA heights each RPC call covers are executed "
+                   "symbolically: the first page of any gap, the inductive step from any valid page, the sizer step from any "
+                   "sizer state, and k pages in a row with arbitrary RPC outcomes.",
+    "bounds": "all u64 heights below 2^63, all u64 page sizes / thresholds / log counts; sizer step: page size < 2^24 (quick) and "
+              "full u64 (thorough); pager sequence: k = 4 (quick), 6 (thorough) RPC calls from any gap and sizer configuration",
+    "outside": "the try_unfold stream over the alloy RPC provider in download_logs (its three-line driver is restated in the "
+               "harness), write_logs (HashMap per height) and insert_events (storage), log ordering, the retry loop; heights at "
+               "u64::MAX (the pager's saturating arithmetic repeats the last page there)",
+    "assumptions": ["DA heights < 2^63", "initial page size >= 1 (config)", "an RPC error ends the download stream (as in download_logs) and nothing of the failed page is written"],
+    "harnesses": [
+        H("c29_first_page", [_PG + "EthSyncGap::page", _PG + "EthSyncPage::is_empty"], "any gap, any page size"),
+        H("c29_page_step", [_PG + "EthSyncPage::advance_and_resize"], "any valid page, any new size"),
+        H("c29_sizer_step_b24", ["fuel_core_relayer::service::AdaptivePageSizer::update"], "page size < 2^24, any max/threshold/log counts, <= 2 prior successes", tiers=("quick",)),
+        H("c29_sizer_step_b64", ["fuel_core_relayer::service::AdaptivePageSizer::update"], "any u64 page size", tiers=("thorough",), timeout={"thorough": 3600}),
+        H("c29_pager_k4", [_PG + "EthSyncGap::page", _PG + "EthSyncPage::advance_and_resize", "AdaptivePageSizer::update"], "4 RPC calls, any outcomes"),
+        H("c29_pager_k6", [_PG + "EthSyncGap::page", _PG + "EthSyncPage::advance_and_resize", "AdaptivePageSizer::update"], "6 RPC calls, any outcomes", tiers=("thorough",), timeout={"thorough": 3600}),
     ],
 }
